@@ -227,10 +227,35 @@ def _store_array(
             chunks=source.chunksize,
             path=path,
         )
+    else:
+        # Each task must write whole chunks (or shards) of an existing target, otherwise
+        # tasks sharing a stored chunk overwrite each other's data. Rechunk the source if
+        # its blocks do not line up with the target's.
+        target_write_chunks = _target_write_chunks(target)
+        if target_write_chunks is not None and len(target_write_chunks) == source.ndim:
+            if region is None or all(r == slice(None) for r in region):
+                if source.shape != tuple(target.shape):
+                    raise ValueError(
+                        f"Source array shape {source.shape} does not match target shape {tuple(target.shape)}"
+                    )
+                # a source block may cover several whole target chunks
+                misaligned = any(
+                    sc % tc != 0
+                    for sc, tc in zip(source.chunksize, target_write_chunks)
+                )
+            else:
+                # region writes map source blocks to target chunks one-to-one
+                misaligned = tuple(source.chunksize) != tuple(
+                    min(tc, s) for tc, s in zip(target_write_chunks, source.shape)
+                )
+            if misaligned:
+                source = source.rechunk(target_write_chunks)
     identity = lambda a: a
     blockwise_kwargs = blockwise_kwargs or {}
     if region is None or all(r == slice(None) for r in region):
-        if not isinstance(source._zarray, LazyZarrArray):
+        if not isinstance(source._zarray, LazyZarrArray) or getattr(
+            source, "_stored_to_target", False
+        ):
             ind = tuple(range(source.ndim))
             return blockwise(
                 identity,
@@ -249,6 +274,8 @@ def _store_array(
 
             # replace source target array with new target
             source._zarray = target
+            # a second store of this array must copy it rather than re-target it again
+            source._stored_to_target = True
 
             # replace plan target array with new target
             for n, d in source._plan.dag.nodes(data=True):
@@ -284,7 +311,7 @@ def _store_array(
     else:
         # treat a region as an offset within the target store
         shape = target.shape
-        chunks = target.chunks
+        chunks = _target_write_chunks(target) or target.chunks
         for i, (sl, cs) in enumerate(zip(region, chunks)):
             if (sl.start is not None and sl.start % cs != 0) or (
                 sl.stop is not None and sl.stop % cs != 0 and sl.stop != shape[i]
@@ -341,6 +368,20 @@ def _store_array(
 
         assert isinstance(out, Array)  # single output
         return out
+
+
+def _target_write_chunks(target):
+    """The shape of the stored objects (shards if sharded, else chunks) of an existing target array,
+    or None if it doesn't have a regular grid."""
+    try:
+        shards = getattr(target, "shards", None)
+        chunks = shards if shards is not None else target.chunks
+    except NotImplementedError:
+        # rectilinear chunk grids don't support .chunks
+        return None
+    if chunks is None or not all(isinstance(c, Integral) for c in chunks):
+        return None
+    return tuple(int(c) for c in chunks)
 
 
 def to_zarr(
